@@ -370,6 +370,48 @@ func genC07(c *Ctx) {
 		c.Refuse("postingsIterator.Next/Advance: `rvNumber := next.Number() + i.snapshot.offsets[i.segmentOffset]` expected once in each (found %d)", globals)
 	}
 
+	// ---- literalPrefix (search_regexp.go): a literal is returned as the prefix only when it is NOT case-folded
+	lp := c07Func(c, sp, "literalPrefix")
+	var lpGuard []string
+	lpReturns := 0
+	ast.Inspect(lp.Body, func(n ast.Node) bool {
+		is, ok := n.(*ast.IfStmt)
+		if !ok {
+			return true
+		}
+		returnsRune := false
+		ast.Inspect(is.Body, func(m ast.Node) bool {
+			if rs, ok := m.(*ast.ReturnStmt); ok && len(rs.Results) == 1 && strings.Contains(sp.Src(rs.Results[0]), ".Rune") {
+				returnsRune = true
+			}
+			return true
+		})
+		if returnsRune {
+			lpReturns++
+			lpGuard = c07Split(sp, is.Cond, token.LAND)
+		}
+		return true
+	})
+	if lpReturns != 1 {
+		c.Refuse("literalPrefix: expected exactly one `if … { return string(s.Rune) }` (found %d):\n%s", lpReturns, sp.Src(lp))
+	}
+	// every other return of literalPrefix yields the empty prefix
+	ast.Inspect(lp.Body, func(n ast.Node) bool {
+		if rs, ok := n.(*ast.ReturnStmt); ok && len(rs.Results) == 1 {
+			src := sp.Src(rs.Results[0])
+			if src != `""` && !strings.Contains(src, ".Rune") {
+				c.Refuse("literalPrefix returns something that is neither \"\" nor the literal's runes: %s", src)
+			}
+		}
+		return true
+	})
+	noFold := false
+	for _, g := range lpGuard {
+		if strings.ReplaceAll(strings.ReplaceAll(strings.ReplaceAll(g, " ", ""), "(", ""), ")", "") == "s.Flags&syntax.FoldCase==0" {
+			noFold = true
+		}
+	}
+
 	var b strings.Builder
 	b.WriteString("/-! GENERATED by /verif/go/extract (c07.go) from search/searcher/{search_disjunction,search_conjunction,\nsearch_phrase,search_filter}.go and index/{postings,snapshot}.go of the repository under check.\nDo not edit: `./check C07` rewrites this file from the working tree on every run. -/\nnamespace BlugeGen.C07\n\n")
 	fmt.Fprintf(&b, "/-- `var DisjunctionHeapTakeover` (search_disjunction.go) -/\ndef disjunctionHeapTakeover : Nat := %d\n\n", takeover)
@@ -386,9 +428,10 @@ func genC07(c *Ctx) {
 	fmt.Fprintf(&b, "/-- postingsIterator.Advance: the conjuncts of the backward-seek (restart) test -/\ndef postingsRestartGuard : List String := %s\n\n", c07LeanList(restartGuard))
 	fmt.Fprintf(&b, "/-- … the restart closes the RECEIVER (the iterator that stays in use) — the defect repaired by a8a2358 -/\ndef postingsRestartClosesReceiver : Bool := %v\n\n", closedRecv)
 	fmt.Fprintf(&b, "/-- segmentIndexAndLocalDocNumFromGlobal: the predicate handed to `sort.Search(len(i.offsets), …)`, and is 1 subtracted -/\ndef segmentSearchPred : String := %s\ndef segmentSearchMinusOne : Bool := %v\n\n", LeanStr(searchPred), minusOne)
+	fmt.Fprintf(&b, "/-- literalPrefix (search_regexp.go): the conjuncts under which the left-most literal of the parsed pattern is\nreturned as the prefix that confines the dictionary walk, and whether `s.Flags&syntax.FoldCase == 0` is among them\n(a case-folded literal stands for all case variants; regexp/syntax stores its UPPER-case spelling) -/\ndef literalPrefixGuard : List String := %s\ndef literalPrefixOnlyWithoutFoldCase : Bool := %v\n\n", c07LeanList(lpGuard), noFold)
 	b.WriteString("end BlugeGen.C07\n")
 	c.WriteLean("C07", b.String())
-	c.Summary["facts"] = 15
+	c.Summary["facts"] = 16
 	c.Summary["DisjunctionHeapTakeover"] = takeover
 	c.Summary["DisjunctionMaxClauseCount"] = maxClauses
 }
